@@ -45,6 +45,13 @@ impl Concurrent<VirtualSystem> {
     {
         let mut task = pin!(task);
         while poll!(&mut task).is_pending() {
+            #[cfg(feature = "verif-hooks")]
+            if crate::verif_hooks::take_yield_request() && self.inner.current_process().state().is_alive() {
+                // The task is at a preemption point: give way to the other
+                // virtual processes and resume the task without `select`ing.
+                pending!();
+                continue;
+            }
             let state = self.inner.current_process().state();
             match state {
                 ProcessState::Running => {
